@@ -20,6 +20,8 @@ type c16Case struct {
 	NumArg string   `json:"numarg"`
 	Region int      `json:"region"` // for kill-region: the mark is set this many characters before
 	Moves  []string `json:"moves,omitempty"` // long sequences: the motion between two kills
+	// Emacs: after the yank, commands that change the buffer without killing, then a second yank
+	Post []string `json:"post,omitempty"`
 }
 
 var c16Buffers = []string{"echo hello world", "git commit -m 'x y'", "foo(bar[1]) {baz}", "a\nb\nc", "世界 wörld ok", "  padded  text  ", "one", "x", "if true; then\n  echo \"hi\"\nfi",
@@ -87,6 +89,11 @@ func c16Gen(r *rand.Rand, tier string, idx int) any {
 	c.Region = 1 + r.Intn(6)
 	if r.Intn(2) == 0 {
 		c.Region = -c.Region // the point ends before the mark
+	}
+	if r.Intn(3) == 0 {
+		for i, n := 0, 1+r.Intn(3); i < n; i++ {
+			c.Post = append(c.Post, pick(r, []string{"\x01", "\x05", "\x02", "\x1bb", "\x1bu", "\x1bl", "\x1bc", "\x14", "x", "\x7f", "\x04"}))
+		}
 	}
 	return c
 }
@@ -167,6 +174,12 @@ func c16Run(env *fw.Env, raw json.RawMessage) fw.Outcome {
 			}
 		}
 		add("\x19", "yank")
+		for _, k := range c.Post {
+			add(k, "post")
+		}
+		if len(c.Post) > 0 {
+			add("\x19", "yank2")
+		}
 	}
 	res := s.Call(plan, steps("\x03", "\x03"))
 	ctx := fmt.Sprintf("mode=%s buffer=%q cursor=%d kills=%v numarg=%q region=%d", c.Mode, buf, c.Cursor, c.Kills, c.NumArg, c.Region)
@@ -264,6 +277,36 @@ func c16Run(env *fw.Env, raw json.RawMessage) fw.Outcome {
 			}
 		}
 	}
+	// The kill ring keeps the text of the most recent kill while commands that do not kill run,
+	// and a later yank still inserts it.
+	if lastKill >= 0 && len(c.Post) > 0 {
+		if a, ok := after[lastKill]; ok {
+			R := a.Kill
+			for i := lastKill + 1; i < len(plan); i++ {
+				w, ok := after[i]
+				if !ok {
+					break
+				}
+				switch plan[i].Tag {
+				case "post", "yank":
+					o.O.Events++
+					o.Add("kill_ring_checked_after_non_kill_commands", 1)
+					if w.Kill != R {
+						o.Viol("kill-ring-changed-by-a-command-that-does-not-kill|"+w.Cmd, ctx+fmt.Sprintf(" post=%q: after the last kill the kill buffer was %q; after %s (buffer %q) it is %q", c.Post, R, w.Cmd, w.Line, w.Kill))
+						i = len(plan)
+					}
+				case "yank2":
+					if pw, ok := after[i-1]; ok && R != "" {
+						o.O.Events++
+						pl := []rune(pw.Line)
+						if pw.Pos <= len(pl) && w.Line != string(pl[:pw.Pos])+R+string(pl[pw.Pos:]) {
+							o.Viol("later-yank-does-not-insert-the-most-recent-kill", ctx+fmt.Sprintf(" post=%q: kill buffer after the last kill %q; buffer %q (pos %d) became %q", c.Post, R, pw.Line, pw.Pos, w.Line))
+						}
+					}
+				}
+			}
+		}
+	}
 	if env.Verbose {
 		var tr []string
 		for i := range plan {
@@ -292,7 +335,7 @@ func init() {
 		ID:        "C16",
 		Level:     "exploration",
 		NeedsTerm: true,
-		Rule: "15 history-recalled buffers (punctuation, quotes, URLs, multi-line, multi-byte, tabs, blanks) x every cursor position (enumerated over the case list) x 10 Emacs kill commands bound by name (kill-line, backward-kill-line, unix-line-discard, kill-word, backward-kill-word, unix-word-rubout, shell-kill-word, shell-backward-kill-word, kill-whole-line, kill-region after set-mark + motion) with numeric arguments (none, 2, 3, -, -2), sequences of 2-3 kills separated by motions, and Vi x with counts followed by P; oracle: if the kill changed the buffer, the kill buffer R satisfies L1[:i] + R + L1[i:] == L for some i, and when i is the cursor position an immediate yank restores L exactly; after several kills yank inserts the most recent one. " +
+		Rule: "15 history-recalled buffers (punctuation, quotes, URLs, multi-line, multi-byte, tabs, blanks) x every cursor position (enumerated over the case list) x 10 Emacs kill commands bound by name (kill-line, backward-kill-line, unix-line-discard, kill-word, backward-kill-word, unix-word-rubout, shell-kill-word, shell-backward-kill-word, kill-whole-line, kill-region after set-mark + motion) with numeric arguments (none, 2, 3, -, -2), sequences of 2-3 kills separated by motions, and Vi x with counts followed by P; oracle: if the kill changed the buffer, the kill buffer R satisfies L1[:i] + R + L1[i:] == L for some i, and when i is the cursor position an immediate yank restores L exactly; after several kills yank inserts the most recent one; one Emacs case in three goes on after the yank with 1-3 commands that move or change the buffer without killing (case-word commands, transpose, insert, delete-char) and a second yank: the kill buffer must stay what the last kill took and the second yank must insert it. " +
 			"distinct non-trivial = distinct (kill command, buffer class, cursor class, argument class) tuples",
 		Assumptions: []string{"Vi x on the last character moves the cursor left: P is then not at the same point and restoration is not demanded (as in vi)"},
 		N: func(tier string) int {
